@@ -92,7 +92,7 @@ CHECKS['C18'] = dict(
 from checks_py import stream_families, cached_binary
 HOOK_COMMITS.append('7573bac2'); HOOK_COMMITS.append('be5b62f7')
 
-_PROG_RULE = ('fonts enumerated by gen/progenum.py and filtered by the REAL loader: (action) every action program of <=3 atoms (quick) / <=4 atoms (thorough) over a 26-atom alphabet, plus every program of 4 (quick, >= 3 distinct atoms) / 5 (thorough) atoms over the 11 structural atoms (NEXT, glyph change, copy, insert, delete, assoc, attach), plus in quick the 1440 5-atom programs using one atom of each kind (advance, glyph change, delete, copy, attach) in every order, plus programs whose run-time stack use exceeds the linear depth analysis of the loader (SET_FEAT x 2..20) '
+_PROG_RULE = ('fonts enumerated by gen/progenum.py and filtered by the REAL loader: (action) every action program of <=3 atoms (quick) / <=4 atoms (thorough) over a 26-atom alphabet, plus (deep, short texts) every program of 4 and 5 atoms over the 11 structural atoms (NEXT, glyph change, copy, insert, delete, assoc, attach) in the main substitution context and every 5-atom program in a 3-slot rule with pre-context and in a positioning pass - thorough: the 5-atom programs in five more contexts (rule length 1..3, pre-context, positioning) and every 6-atom program containing two of {insert/delete, copy, attach} in two contexts (3.9 M programs) -, plus programs whose run-time stack use exceeds the linear depth analysis of the loader (SET_FEAT x 2..20) '
               '{NEXT, PUT_GLYPH x|y, PUT_SUBS -1|0|+1, PUT_COPY -1|0|+1, INSERT, DELETE, ASSOC, attach.to -2..2, ATTR_SET adv/shift/att/insert, IATTR_SET user, SET_FEAT, slot/glyph-attr readers} x 6 terminators '
               '(RET_ZERO, POP_RET -2..2), in 3 (quick) / 6 (thorough) rule contexts (rule length 1..3, pre-context 0..1, maxRuleLoop 1/2/5, substitution or positioning pass) followed by a fixed attaching pass; '
               '(constraint) every constraint program of <=4 / <=5 atoms over 20 atoms incl. CNTXT_ITEM bodies netting 0/+1/+2, plus CNTXT_ITEM bodies of k = 2..16 pushes (skipped at run time on the other slots) followed by k-1 AND/ADD/OR; (twopass) all ordered pairs (thorough: triples) of 18 hand-written attach/re-attach/delete/insert/copy/assoc rules '
@@ -104,7 +104,7 @@ for _p, _what in (('C02', 'oracle: ASan/UBSan silence, rule-loop counter hook <=
                   ('C05', 'oracle: n_cinfo == nChars, characters and bases equal the reference decoding, slot before/after/original in range, every character covered, cinfo before/after in [0,n_slots)')):
     CHECKS[_p] = dict(
         level='exploration',
-        steps=[dict(name='program_enumeration', py=stream_families(['growth', 'twopass', 'manyrules', 'constraint', 'action'], _p), targets=[('asan', 'c02_stream')]),
+        steps=[dict(name='program_enumeration', py=stream_families(['growth', 'twopass', 'manyrules', 'deep', 'constraint', 'action'], _p), targets=[('asan', 'c02_stream')]),
                dict(name='accepted_load_mutants', py=cached_binary('c01_load', _p, 'C01'), targets=[('asan', 'c01_load')]),
                dict(name='shipped_corpora', py=cached_binary('c03_corpus', _p, 'C02'), targets=[('asan', 'c03_corpus')])],
         rule=_PROG_RULE + 'Additionally every C01 load mutant (single byte / field / field pair / truncation deviations of the seed fonts) that the loader accepts is shaped with 4 texts x dir {0,1,3}; and every shipped font x corpus lines/words + every substring of 1..4 characters of the first lines (texts that start inside a cluster or with a mark) and every synthesised seed font (all S-full / S-min / Feat variants: compressed, RTL, line-end flag, pass bits, bidi step with mirroring, dense attributes, cmap edges ...) x all strings of length 0..3 over 11 characters (letters, space, marks, pseudo-glyph character, supplementary character), x dir 0..7 x {font NULL, ppm 16}. ' + _what + '. distinct = distinct structural segment dumps (slots, glyphs, attachments, associations) observed',
